@@ -38,6 +38,9 @@ def _worker(job):
 
 
 def _worker_send(job, conn):
+    if os.environ.get("VERIF_DEBUG"):
+        import faulthandler
+        faulthandler.enable()
     try:
         conn.send(_worker(job))
     except BaseException:
@@ -72,6 +75,7 @@ def run_jobs(jobs, nproc=None, deadline=None, chunk=300, known=(), xval=2, timeo
     # idle workers, tasks still 'in flight', the check then waited for its time limit).  A fresh process per job also
     # gives every job a fresh z3 context (reproducible solver behaviour).
     running = {}   # pid -> (process, parent_conn, job, t_start)
+    restarts = []
 
     def launch(j):
         pc, cc = ctx.Pipe(duplex=False)
@@ -131,6 +135,14 @@ def run_jobs(jobs, nproc=None, deadline=None, chunk=300, known=(), xval=2, timeo
                     del running[pid]
                     pc.close()
                     pr.join(5)
+                    if got[1] is None and "without a result" in str(got[2]) and not job.get("_retried"):
+                        # the process was killed (z3 occasionally segfaults when a short model-search timeout cancels it
+                        # under load): run the job once more in a fresh process; a second death is reported as a crash
+                        nj = dict(job)
+                        nj["_retried"] = True
+                        pending.append(nj)
+                        restarts.append(str(got[2]))
+                        continue
                     handle(job, got[1], got[2])
                     if progress:
                         progress(results)
@@ -150,4 +162,6 @@ def run_jobs(jobs, nproc=None, deadline=None, chunk=300, known=(), xval=2, timeo
                 pr.kill()
     for k, r in results.items():
         r["exhausted"] = not timed_out
+    if restarts and results:
+        next(iter(results.values()))["worker_restarts"] = len(restarts)
     return results, errors, timed_out
